@@ -536,10 +536,105 @@ def _positive(test: ast.AST, needle: str) -> bool:
     return needle in src(test)
 
 
+class _Rename(ast.NodeTransformer):
+    def __init__(self, old, new):
+        self.old, self.new = old, new
+
+    def visit_Name(self, node):
+        return ast.copy_location(ast.Name(id=self.new, ctx=node.ctx), node) if node.id == self.old else node
+
+
+def _canon_quantifiers(test: ast.AST) -> ast.AST:
+    """all(...)/any(...) over one generator -> an opaque name `ALL(<elt> | <iter>)`, any() expressed through all()."""
+    import copy as _copy
+
+    class Q(ast.NodeTransformer):
+        def visit_Call(self, node):
+            self.generic_visit(node)
+            if isinstance(node.func, ast.Name) and node.func.id in ("all", "any") and len(node.args) == 1 \
+                    and isinstance(node.args[0], (ast.GeneratorExp, ast.ListComp)) and len(node.args[0].generators) == 1:
+                gen = node.args[0].generators[0]
+                if isinstance(gen.target, ast.Name) and not gen.ifs:
+                    elt = _Rename(gen.target.id, "_p").visit(ast.parse(ast.unparse(node.args[0].elt), mode="eval").body)
+                    neg = False
+                    if node.func.id == "any":
+                        if isinstance(elt, ast.Compare) and len(elt.ops) == 1 and isinstance(elt.ops[0], (ast.Eq, ast.NotEq)):
+                            elt.ops = [ast.NotEq() if isinstance(elt.ops[0], ast.Eq) else ast.Eq()]
+                            neg = True
+                        else:
+                            return ast.Name(id=f"ANY({ast.unparse(elt)} | {ast.unparse(gen.iter)})", ctx=ast.Load())
+                    name = ast.Name(id=f"ALL({ast.unparse(elt)} | {ast.unparse(gen.iter)})", ctx=ast.Load())
+                    return ast.UnaryOp(op=ast.Not(), operand=name) if neg else name
+            return node
+
+    return Q().visit(ast.parse(ast.unparse(test), mode="eval").body)
+
+
+def r9_cascade_exemptions(ctx: Context) -> None:
+    from .. import lin
+    ctx.rule("C06.R9", "in TaskGraph.cancel every test that spares a visited descendant speaks about that descendant "
+                       "(its own flags, state and parents), and the conditional-join exemption is exactly `terminal and "
+                       "not the requested task and not all of ITS parents cancelled`")
+    tg = ctx.repo.mod(TASKS).cls("TaskGraph")
+    fn = method(tg, "cancel")
+    head = fn.args.args[1].arg
+    loops = [n for n in fn.body if isinstance(n, ast.For) and isinstance(n.iter, ast.Call)
+             and call_name(n.iter) in ("depth_first", "breadth_first") and isinstance(n.target, ast.Name)]
+    ctx.floor("C06.R9", "descendant traversal in TaskGraph.cancel", len(loops), 1)
+    lp = loops[0]
+    lv = lp.target.id
+    ok_iter = len(lp.iter.args) == 1 and isinstance(lp.iter.args[0], ast.Name) and lp.iter.args[0].id == head
+    ctx.check(ok_iter, "C06.R9", "TaskGraph.cancel|traversal starts at the cancelled task", loc(lp), "ok",
+              f"the cascade walks `{norm(lp.iter)}`, not the descendants of `{head}`")
+    cancel_stmt = next((x for x in lp.body if isinstance(x, ast.Expr) and isinstance(x.value, ast.Call)
+                        and call_name(x.value) == "cancel" and isinstance(x.value.func.value, ast.Name) and x.value.func.value.id == lv), None)
+    if cancel_stmt is None:
+        raise AnalysisError("TaskGraph.cancel: `<visited>.cancel(time)` is not a top-level statement of the traversal")
+    exemptions = [x for x in lp.body if isinstance(x, ast.If) and x.lineno < cancel_stmt.lineno
+                  and any(isinstance(y, (ast.Break, ast.Continue, ast.Return)) for y in ast.walk(x))]
+    ctx.floor("C06.R9", "exemption tests before the cancel call", len(exemptions), 2)
+    n_term = 0
+    for ex in exemptions:
+        t = ex.test
+        comp_vars = {}
+        for gnode in ast.walk(t):
+            if isinstance(gnode, ast.comprehension) and isinstance(gnode.target, ast.Name):
+                comp_vars[gnode.target.id] = gnode.iter
+        bad = []
+        for n in ast.walk(t):
+            if isinstance(n, ast.Call) and call_name(n) in ("get_parents", "get_children", "get_ancestors", "get_descendants"):
+                a = n.args[0] if n.args else None
+                if not (isinstance(a, ast.Name) and a.id == lv):
+                    bad.append(norm(n))
+            if isinstance(n, ast.Attribute) and isinstance(n.value, ast.Name) and n.value.id not in (lv, "self", "TaskState") \
+                    and n.value.id not in comp_vars:
+                bad.append(norm(n))
+        ctx.check(not bad, "C06.R9", f"TaskGraph.cancel|exemption `{norm(t)[:60]}` speaks about the visited task", loc(ex),
+                  "only the visited task, its state and its parents are consulted",
+                  f"the test that spares `{lv}` consults {bad}: a descendant is kept alive (or cancelled) because of "
+                  "another task's neighbourhood, so a join whose own inputs are all gone can stay uncancelled")
+        if "terminal" in norm(t):
+            n_term += 1
+            got = lin.formula(_canon_quantifiers(t))
+            want_src = f"{lv}.terminal and {lv} != {head} and not __Q__"
+            want_ast = ast.parse(want_src, mode="eval").body
+            qname = f"ALL(_p.state == TaskState.CANCELLED | self.get_parents({lv}))"
+            want_ast = _Rename("__Q__", qname).visit(want_ast)
+            want = lin.formula(want_ast)
+            ctx.check(lin.equivalent(got, want), "C06.R9", "TaskGraph.cancel|conditional-join exemption", loc(ex),
+                      "terminal and not requested and some own parent not cancelled",
+                      f"the join exemption is `{norm(t)[:140]}`: it must spare a join exactly while one of its own parents "
+                      "can still complete (a join with every parent cancelled can no longer receive its inputs)")
+            ctx.check(any(isinstance(y, ast.Break) for y in ex.body) or any(isinstance(y, ast.Continue) for y in ex.body),
+                      "C06.R9", "TaskGraph.cancel|exemption leaves the iteration", loc(ex), "break/continue", "falls through to cancel")
+    ctx.floor("C06.R9", "conditional-join exemption", n_term, 1)
+
+
 def run(ctx: Context) -> None:
-    r1_who_may_write(ctx)
-    r2_r3_r4_relation(ctx)
-    r5_cancellation_reported(ctx)
-    r6_pending_placement_dropped(ctx)
-    r7_decision_application(ctx)
-    r8_graph_finished(ctx)
+    ctx.isolate(r1_who_may_write)
+    ctx.isolate(r2_r3_r4_relation)
+    ctx.isolate(r5_cancellation_reported)
+    ctx.isolate(r6_pending_placement_dropped)
+    ctx.isolate(r7_decision_application)
+    ctx.isolate(r8_graph_finished)
+    ctx.isolate(r9_cascade_exemptions)
